@@ -1436,6 +1436,9 @@ fn emit_fn(
         } else if let Some(r) = t.strip_prefix("vx_guard_released!(") {
             let g = r.trim_end_matches(");");
             *l = format!("proof {{ vx_guard_{g} = false; }} /*vxguard*/");
+        } else if t.starts_with("vx_forbidden_await_soft!(") {
+            let lab = d.timedawaits.as_ref().map(|x| x.1.clone()).unwrap_or_else(|| format!("{guard_prop}.forbidden_wait"));
+            *l = format!("assert(false); // [{lab}] (a call awaited outside a time-out: decided by the callee's contract)");
         } else if t.starts_with("vx_forbidden_await!(") {
             let lab = d.loopawaits.as_ref().map(|x| x.2.clone()).or_else(|| d.timedawaits.as_ref().map(|x| x.1.clone())).unwrap_or_else(|| format!("{guard_prop}.forbidden_wait"));
             *l = format!("assert(false); // [{lab}] /*vxguard*/");
